@@ -147,20 +147,38 @@ def normpoint(ctx: Ctx, rep: Report) -> None:
             pops = [c for c in ast.walk(body) if isinstance(c, ast.Call)
                     and norm(c.func) == 'self.pop' and c.args
                     and norm(c.args[0]) == 'point']
+            cyc = {'point[0]', 'point.cycle'}
+            for s in ast.walk(body):
+                if isinstance(s, ast.Assign) and len(s.targets) == 1:
+                    t0 = s.targets[0]
+                    if isinstance(t0, ast.Tuple) and t0.elts and isinstance(
+                            t0.elts[0], ast.Name) and norm(
+                                s.value) == 'point':
+                        cyc.add(t0.elts[0].id)  # cycle, qudit = point
+                    elif isinstance(t0, ast.Name) and norm(s.value) in (
+                            'point[0]', 'point.cycle'):
+                        cyc.add(t0.id)
             reuse = [
                 c for c in ast.walk(body) if isinstance(c, ast.Call)
                 and norm(c.func) in ('self.insert', 'self.insert_circuit')
-                and c.args and norm(c.args[0]) == 'point[0]'
+                and c.args and norm(c.args[0]) in cyc
             ]
             if not (pops and reuse):
                 continue
             first = min(c.lineno for c in pops + reuse)
         else:
             # raw cycle numbers of several points are ordered or shifted
+            aliases = {'points'} | {
+                s.targets[0].id for s in ast.walk(body)
+                if isinstance(s, ast.Assign) and len(s.targets) == 1
+                and isinstance(s.targets[0], ast.Name)
+                and any(isinstance(y, ast.Name) and y.id == 'points'
+                        for y in ast.walk(s.value))
+            }
             uses = [
                 x for x in ast.walk(body) if isinstance(x, ast.Call)
                 and norm(x.func) == 'sorted'
-                and any(isinstance(y, ast.Name) and y.id == 'points'
+                and any(isinstance(y, ast.Name) and y.id in aliases
                         for y in ast.walk(x))
             ]
             reins = [c for c in ast.walk(body) if isinstance(c, ast.Call)
@@ -173,10 +191,19 @@ def normpoint(ctx: Ctx, rep: Report) -> None:
         rep.seen(f.qualname)
         normalised = [
             s for s in ast.walk(body) if isinstance(s, ast.Assign)
-            and len(s.targets) == 1 and norm(s.targets[0]) == pname
+            and len(s.targets) == 1 and isinstance(s.targets[0], ast.Name)
             and any(isinstance(c, ast.Call) and norm(c.func) == (
                 'self.normalize_point') for c in ast.walk(s.value))
-            and s.lineno < first
+            and any(isinstance(x, ast.Name) and x.id == pname
+                    for x in ast.walk(s.value))
+            and s.lineno <= first
+            # under the same name, or under a new one that the later uses
+            # (the sort / the re-insertion) read instead of the raw one
+            and (s.targets[0].id == pname or not any(
+                isinstance(x, ast.Name) and x.id == pname
+                and getattr(x, 'lineno', 0) > s.lineno
+                and not isinstance(x.ctx, ast.Store)
+                for x in ast.walk(body)))
         ]
         rep.check(
             bool(normalised), R, f'Circuit.{f.name}', f.path, f.lineno,
